@@ -1299,10 +1299,21 @@ func runRearm(cases []parkedCase, sec *vh.Section) {
 	verifhook.Set("pipe.worker.beforeDone", nil)
 	t0 := time.Now()
 	close(release)
+	// every scenario's latency is measured on its own (in parallel), from the common release
+	ns, lats := make([]int, len(scs)), make([]time.Duration, len(scs))
+	var mwg sync.WaitGroup
 	for i, s := range scs {
-		n := waitDest(s.srv, s.destTags, s.base+wantExtra[i], 3*time.Second)
-		lat := time.Since(t0)
-		time.Sleep(100 * time.Millisecond)
+		mwg.Add(1)
+		go func(i int, s *sc) {
+			defer mwg.Done()
+			ns[i] = waitDest(s.srv, s.destTags, s.base+wantExtra[i], 3*time.Second)
+			lats[i] = time.Since(t0)
+		}(i, s)
+	}
+	mwg.Wait()
+	time.Sleep(150 * time.Millisecond)
+	for i, s := range scs {
+		n, lat := ns[i], lats[i]
 		s.lines = append(s.lines, "wdone 0", "wopen 0", "wcopy 0 1000000", "wsave 0")
 		obs(s)
 		res.Eval(sec, fmt.Sprint(s.c))
